@@ -67,6 +67,7 @@ func goraceEnv(prefix string) []string {
 
 func checkC11(o options) int {
 	wall := o.wall
+	defer func(d time.Duration) { procBackstop = d }(procBackstop)
 	if wall == 0 {
 		if o.tier == "thorough" {
 			wall = 25 * time.Minute
@@ -74,6 +75,9 @@ func checkC11(o options) int {
 			wall = 45 * time.Second
 		}
 	}
+	// every child is bounded: the exploration budget plus a generous allowance
+	// for minimisation and the fresh-process phases
+	procBackstop = wall + 20*time.Minute
 	known := loadKnown("C11")
 	builds := prepareAll(prepOpts{instrumented: true, race: true, name: "race"}, prepOpts{instrumented: true, name: "inst"})
 	race, plain := builds[0], builds[1]
